@@ -4,6 +4,8 @@ import json, os, shutil, subprocess, sys
 wt, sid, verdict, note = sys.argv[1:5]
 dst = os.path.join(os.path.dirname(os.path.dirname(os.path.abspath(__file__))), "seeded", sid)
 os.makedirs(dst, exist_ok=True)
+subprocess.run(["git", "-C", wt, "checkout", "-q", "--", "pybads"])
+subprocess.run(["git", "-C", wt, "apply", os.path.join(wt, "MUTANT", "patch.diff")], check=True)
 diff = subprocess.run(["git", "-C", wt, "diff", "--", "pybads"], capture_output=True, text=True).stdout
 open(os.path.join(dst, "patch.diff"), "w").write(diff)
 shutil.copy(os.path.join(wt, "MUTANT", "demo.py"), os.path.join(dst, "demo.py"))
